@@ -142,6 +142,21 @@ def verify(ck) -> None:
                     if float(ac.target_temperature) != float(new.set_point) or not b["calls"]:
                         bad.append(f"a status change from its console is not shown / announced (target {ac.target_temperature}, calls {len(b['calls'])})")
                     b["calls"].clear()
+                    # ... and a zone status change reaches ITS zone object and ITS zone subscriber
+                    zs = sorted(inst.zone_status)
+                    if zs:
+                        z = zs[0]
+                        zst = inst.zone_status[z]
+                        newd = (zst.damper_percentage + 7) % 101 if hasattr(zst, "damper_percentage") else None
+                        if newd is not None:
+                            inst.zone_status[z] = dataclasses.replace(zst, damper_percentage=newd)
+                            rig.console.push(inst.zone_status_message(only={z}))
+                            rig.pump()
+                            zo = [zz for a in rig.at.air_conditioners for zz in a.zones if zz.zone_id == z]
+                            if not zo or zo[0].current_damper_percentage != newd or not b["calls"]:
+                                bad.append(f"a zone status change from its console is not shown / announced "
+                                           f"(damper {zo[0].current_damper_percentage if zo else None}, expected {newd}, calls {len(b['calls'])})")
+                    b["calls"].clear()
                     m0 = len(rig.console.received)
                     rig.run(ac.set_power(T.POWER_CTL[2]))
                     rig.pump()
